@@ -33,11 +33,15 @@ def _unwrap_item(it):
     if k[0] == "none": return None
     if k[0] == "one": return k[1]
     if k[0] == "tuple": return tuple(k[1])
-    if k[0] == "list": return list(k[1])
+    if k[0] == "list":
+        # the hook hands out a list it KEEPS (like `group.members`): extraction must leave it as it is
+        HANDED.append((it, k[1], list(k[1])))
+        return k[1]
     if k[0] == "iter": return FrameIterator(iter(list(k[1])))
     if k[0] == "empty": return ()
 
 
+HANDED = []
 ELAB = {}   # id(pyframe) -> ("none",) | ("prune",) | ("replace", [items]) | ("insert", [items])
 
 
@@ -145,7 +149,7 @@ KEEP = []
 rnd = random.Random(1000 + SEED)
 N = 4000 if THOROUGH else 600
 for t in range(N):
-    ELAB.clear(); del KEEP[:]
+    ELAB.clear(); del KEEP[:]; del HANDED[:]
     stats = dict(act=0)
     root = Item(("tuple", [gen_tree(rnd, 3, stats) for _ in range(rnd.randint(1, 3))]))
     desc = describe(root)
@@ -165,6 +169,19 @@ for t in range(N):
     if got != exp_frames or not (norm(st.leaf) is exp_leaf or norm(st.leaf) == norm(exp_leaf)) or st.error is not None:
         leg.violation(desc, f"frames/leaf differ from the reference interpretation: got {len(got)} frames leaf={st.leaf!r} error={st.error!r}; "
                             f"expected {len(exp_frames)} frames leaf={exp_leaf!r}; tree={desc}")
+    for it, lst, snap in HANDED:
+        if len(lst) != len(snap) or any(a is not b for a, b in zip(lst, snap)):
+            leg.violation(desc, f"extraction changed a list that an unwrap hook returned and keeps ({it!r}: {len(snap)} items before, "
+                                f"{len(lst)} after); tree={desc}")
+            break
+    else:
+        # a second extraction of the same item sees the same thing
+        try:
+            st2 = stackscope.extract(root, with_contexts=False)
+        except BaseException as e:
+            leg.violation(desc, f"second extract raised {e!r}"); continue
+        if [f.pyframe for f in st2.frames] != got:
+            leg.violation(desc, f"a second extraction of the same item differs from the first: {len(st2.frames)} frames, then {len(got)}; tree={desc}")
 # linear self-unwrapping ends with an error instead of hanging
 class Loop:
     pass
